@@ -211,6 +211,19 @@ func init() {
 				outs, err := w.RunBehaviour([]*BCase{{ID: c.ID, Cfg: cfg, Sessions: []BSession{{Ops: ops}}}})
 				behaviourOracle(c, outs, err)
 			})
+			w.Case("after-a-run-with-ignore-flags", func(c *C) {
+				for _, set := range []uint{0x1, 0x80, 0x4a5} {
+					files := []File{{"c.yaml", c06build(set, 0).YAML()}}
+					w.Build(files, "--ignore-missing-params", "--ignore-missing-services")
+					br := w.Build(files)
+					c.Count("evaluations_extra")
+					if br.Exit == 0 {
+						c.Violation("accepted-with-dangling:after-a-run-with-ignore-flags", fmt.Sprintf("set %x: accepted without flags right after a run of the same process that was given both ignore flags", set), FilesMap(files), nil)
+					}
+				}
+				c.Distinct("all", c.ID)
+				c.Distinct("nontrivial", c.ID)
+			})
 			// the same references, dangling or not, however the YAML presents them (aliased argument lists, merge keys ...)
 			for _, set := range []uint{0, 0x1, 0x80, 0x4a5, 0x1ffff} {
 				set := set
